@@ -6,7 +6,7 @@
    The three external-varint helpers used by that file
    (varintExternalUnsignedEncoding, varintExternalPutFixedWidth,
    varintExternalGet; little-endian host branch) are modelled here as
-   `ext_width`, `ext_put_fixed`, `ext_get`.
+   `ext_width`, `dim_ext_put_fixed`, `dim_ext_get`.
 
    One definition per C function / macro, same case structure.  size_t and
    uint64_t are 64 bits (LP64); `mul64`/`add64` are written exactly where the
@@ -33,7 +33,7 @@ Local Open Scope N_scope.
 (* external varint helpers (varintExternal.{c,h}, little-endian host) *)
 
 (* varintExternalPutFixedWidth(p, v, encoding): bytes written *)
-Definition ext_put_fixed (v w : N) : option (list N) :=
+Definition dim_ext_put_fixed (v w : N) : option (list N) :=
   if (1 <=? w) && (w <=? 8) then Some (le_bytes (N.to_nat w) v) else None.
 
 (* bytes [off, off+w) of a buffer, None if they are not all inside *)
@@ -47,7 +47,7 @@ Definition wr_bytes (buf : list N) (off : N) (bs : list N) : option (list N) :=
   then Some (store buf (N.to_nat off) bs) else None.
 
 (* varintExternalGet(p + off, encoding) *)
-Definition ext_get (buf : list N) (off w : N) : option N :=
+Definition dim_ext_get (buf : list N) (off w : N) : option N :=
   if (1 <=? w) && (w <=? 8) then
     match rd_bytes buf off w with Some bs => Some (of_le bs) | None => None end
   else None.
@@ -121,7 +121,7 @@ Definition pair_encode (row col : N) : option (N * list N) :=
   let dim := pair_dimension row col in
   let wr := pair_row_count dim in
   let wc := pair_col_count dim in
-  match (if wr =? 0 then Some [] else ext_put_fixed row wr), ext_put_fixed col wc with
+  match (if wr =? 0 then Some [] else dim_ext_put_fixed row wr), dim_ext_put_fixed col wc with
   | Some br, Some bc => Some (dim, br ++ bc)
   | _, _ => None
   end.
@@ -130,7 +130,7 @@ Definition pair_encode (row col : N) : option (N * list N) :=
 Definition pair_decode (buf : list N) (dim : N) : option (N * N) :=
   let wr := pair_row_count dim in
   let wc := pair_col_count dim in
-  match (if wr =? 0 then Some 0 else ext_get buf 0 wr), ext_get buf wr wc with
+  match (if wr =? 0 then Some 0 else dim_ext_get buf 0 wr), dim_ext_get buf wr wc with
   | Some x, Some y => Some (x, y)
   | _, _ => None
   end.
@@ -147,13 +147,13 @@ Definition entry_offset (buf : list N) (row col w dim : N) : option N :=
 (* varintDimensionPairEntryGetUnsigned *)
 Definition entry_get_unsigned (buf : list N) (row col w dim : N) : option N :=
   match entry_offset buf row col w dim with
-  | Some off => ext_get buf off w
+  | Some off => dim_ext_get buf off w
   | None => None
   end.
 
 (* varintDimensionPairEntrySetUnsigned *)
 Definition entry_set_unsigned (buf : list N) (row col v w dim : N) : option (list N) :=
-  match entry_offset buf row col w dim, ext_put_fixed v w with
+  match entry_offset buf row col w dim, dim_ext_put_fixed v w with
   | Some off, Some bs => wr_bytes buf off bs
   | _, _ => None
   end.
@@ -188,7 +188,7 @@ Definition bit_offsets (buf : list N) (row col dim : N) : option (N * N) :=
   let meta := u8 (wr + wc) in
   let total :=
     if row =? 0 then Some col
-    else match ext_get buf wr wc with
+    else match dim_ext_get buf wr wc with
          | Some cols => Some (add64 (mul64 row cols) col)
          | None => None
          end in
